@@ -1,6 +1,7 @@
 #!/bin/bash
+ROOT="$(cd "$(dirname "$(readlink -f "$0")")" && pwd)"; export MC_VERIF_ROOT="$ROOT"
 # build every harness variant offline from /repo's working tree
-cd /verif
+cd "$ROOT"
 export CARGO_NET_OFFLINE=true
 rc=0
 for v in batch nobatch wrap nobatch-wrap; do ./build.sh $v >/dev/null || rc=1; done
